@@ -162,7 +162,20 @@ where
             }
         }
         // huge indices: rejected, nothing changes (in unchecked builds index * bytes would wrap)
-        for idx in [usize::MAX, usize::MAX / 2 + 1, usize::MAX / 3 + 1, usize::MAX / 4 + 1, usize::MAX / 8 + 1, 1 << 40, 1 << 32] {
+        // every single high bit, pairs of high bits and "all bits above k" combined with low bits that
+        // address an existing pixel (an index computation that shifts or truncates would alias them)
+        let px = base.len() * 8 / bpp as usize;
+        let mut huge: Vec<usize> = vec![usize::MAX, usize::MAX / 2 + 1, usize::MAX / 3 + 1, usize::MAX / 4 + 1, usize::MAX / 8 + 1, 1 << 40, 1 << 32];
+        for k in 31..64u32 {
+            for i in [0usize, 1, px / 2, px.saturating_sub(1)] {
+                huge.push((1usize << k) + i);
+                huge.push((3usize << (k - 1)) + i);
+                huge.push((usize::MAX << k) + i);
+            }
+        }
+        huge.push(usize::MAX - 1);
+        huge.push(usize::MAX - px);
+        for idx in huge {
             let v = vals[vals.len() / 2];
             n += 1;
             let mut got = base.clone();
@@ -243,7 +256,12 @@ where
             0..=3 => None,
             4..=7 => Some(d.u(0, 5) as usize),
             8 => Some(d.u(0, 40) as usize),
-            _ => Some(d.pick(&[usize::MAX, usize::MAX / 2, usize::MAX / 4 + 1, 1 << 40, 1 << 31])),
+            _ => Some(match d.u(0, 2) {
+                0 => d.pick(&[usize::MAX, usize::MAX / 2, usize::MAX / 4 + 1, 1 << 40, 1 << 31]),
+                // a high bit (or all bits above it) plus a small skip that would land inside the buffer
+                1 => (1usize << d.u(31, 63)) + d.u(0, 12) as usize,
+                _ => (usize::MAX << d.u(31, 63)) + d.u(0, 12) as usize,
+            }),
         });
     }
     cx.describe(|| format!("{} bit {} order, data {:02x?}, script {:?} (None = next(), Some(k) = nth(k))", bpp, if be { "BigEndianLsb0" } else { "LittleEndianMsb0" }, data, ops));
